@@ -71,6 +71,10 @@ fn main() {
             debug_sql(&p);
             return;
         }
+        "DEBUGDET" => {
+            debug_det(&p);
+            return;
+        }
         "C01" => mon::c01::run_monitor(&p),
         "C03" => mon::c03::run(&p),
         "C04" => mon::c04::run(&p),
@@ -86,6 +90,7 @@ fn main() {
         "C13" => mon::c13::run(&p, mon::c13::Which::C13),
         "C02" => mon::c13::run(&p, mon::c13::Which::C02),
         "C15" => mon::c15::run(&p),
+        "C16" => mon::c16::run(&p),
         "C17" => mon::c17::run(&p),
         "C18" => mon::c18::run(&p),
         _ => {
@@ -136,5 +141,72 @@ pub fn debug_sql(p: &util::Params) {
         }
         mon::execq::Compiled::Err(e) => println!("compile error {}", e),
         mon::execq::Compiled::Panic(p) => println!("panic {} at {}", p.message, p.location),
+    }
+}
+
+/// debug helper: compile one query many times (on fresh threads too) and print the distinct schemas
+pub fn debug_det(p: &util::Params) {
+    use qrlew::builder::{Ready, With};
+    use qrlew::data_type::DataType;
+    use qrlew::relation::{Relation, Variant as _};
+    use std::sync::Arc;
+    let schema: qrlew::relation::Schema = vec![
+        ("id", DataType::integer_interval(1, 200)),
+        ("a", DataType::boolean()),
+        ("b", DataType::integer_interval(23, 34)),
+        ("c", DataType::integer_interval(19, 54)),
+    ]
+    .into_iter()
+    .collect();
+    let t: Relation = Relation::table().name("t0").schema(schema).size(37).build();
+    let relations: qrlew::hierarchy::Hierarchy<Arc<Relation>> = vec![(vec!["t0".to_string()], Arc::new(t))].into_iter().collect();
+    let sql = p.extra.get("sql").cloned().unwrap_or_default();
+    let mut seen = std::collections::BTreeMap::new();
+    if sql.is_empty() {
+        use qrlew::data_type::function::Function as _;
+        let fl: DataType = DataType::float_values((23..=34).map(|x| x as f64).collect::<Vec<_>>());
+        let set = DataType::structured_from_data_types(&[fl, DataType::integer_interval(23, 34)]);
+        for _ in 0..p.num("n", 200) {
+            let set = set.clone();
+            let s = std::thread::spawn(move || {
+                let a = qrlew::data_type::function::greatest().super_image(&set).map(|d| d.to_string()).unwrap_or_else(|e| e.to_string());
+                let dom = DataType::structured_from_data_types(&[DataType::integer(), DataType::integer()]);
+                let b = qrlew::data_type::Variant::into_data_type(&set, &dom).map(|d| d.to_string()).unwrap_or_else(|e| e.to_string());
+                format!("{} // {}", a, b)
+            }).join().unwrap();
+            *seen.entry(s).or_insert(0) += 1;
+        }
+        for (k, v) in seen {
+            println!("{}x {}", v, k);
+        }
+        let mut seen = std::collections::BTreeMap::new();
+        use qrlew::expr::Expr;
+        let e = Expr::greatest(Expr::abs(Expr::col("b")), Expr::col("b"));
+        let input = DataType::structured([("b", DataType::integer_interval(23, 34))]);
+        for _ in 0..p.num("n", 200) {
+            let a = e.super_image(&input).map(|d| d.to_string()).unwrap_or_else(|e| e.to_string());
+            let ab = Expr::abs(Expr::col("b")).super_image(&input).unwrap();
+            let g = qrlew::expr::function::Function::Greatest.super_image(&[ab.clone(), DataType::integer_interval(23, 34)]).map(|d| d.to_string()).unwrap_or_else(|e| e.to_string());
+            *seen.entry(format!("{} // abs {} // g {}", a, ab, g)).or_insert(0) += 1;
+        }
+        for (k, v) in seen {
+            println!("{}x {}", v, k);
+        }
+        return;
+    }
+    for _ in 0..p.num("n", 200) {
+        let relations = relations.clone();
+        let sql = sql.clone();
+        let s = std::thread::spawn(move || match mon::execq::compile(&sql, &relations) {
+            mon::execq::Compiled::Ok(rel) => format!("{} :: {}", rel.name(), rel.schema()),
+            mon::execq::Compiled::Err(e) => format!("error {}", e),
+            mon::execq::Compiled::Panic(p) => format!("panic {}", p.message),
+        })
+        .join()
+        .unwrap();
+        *seen.entry(s).or_insert(0) += 1;
+    }
+    for (k, v) in seen {
+        println!("{}x {}", v, k);
     }
 }
